@@ -155,6 +155,19 @@ CLAIMED = {
             "methods, constructors, field initialisers) are checked differentially (bounded), not by an alpha-equivalence theorem.",
             "Trusted: Lean kernel (core-only), generators, harness+orchestrator. Defect found and repaired: dynamic scoping through the "
             "caller's frames (fac25a0).", "DESIGN.md §4 C09"),
+    "C17": ("Lean 4 theorems about a model of cli.cpp's reporting logic and the evaluator's recording: @shots wins over --shots for every "
+            "flag value; echo policy as an iff; adding a shot's table adds its counts, so a variable's aggregate total is the sum of the "
+            "per-shot totals in any order (N x exits for equal shots); probabilities = count / the variable's own total lie in [0,1] and sum "
+            "to 1 (over Q); every recorded scope exit adds exactly one outcome and leaves other variables alone; outcome string of a qubit / "
+            "register ('?' unless every element was measured, else the bits in index order) + the real command-line front end run on "
+            "generated programs with a known number of exits per shot and known deterministic outcomes, shot/echo resolution compared with "
+            "the Lean function",
+            "Proof on the model for every flag/annotation/echo value, every list of shot tables and every recording history; tied to "
+            "cli.cpp and the evaluator by running the real front end (bounded). PARTIAL: the class-field recording path (destroyObject) "
+            "is judged by the exit-count oracle only.",
+            "Trusted: Lean kernel, Mathlib (rational arithmetic: propext, Classical.choice, Quot.sound), generator, harness main that calls "
+            "bloch::cli::run, orchestrator. Defects found and repaired: probabilities divided by the shot count, --echo=auto, extra "
+            "declarators not tracked.", "DESIGN.md §4 C17"),
 }
 PENDING_REASON = "check not built yet in this revision of /verif (planned: Lean model + correspondence, see DESIGN.md §4)"
 
